@@ -19,6 +19,9 @@ type ModSpec struct {
 	NGlob int      `json:"nglob"` // own private mutable funcref globals
 	Size  int      `json:"size"`
 	Elems [][3]int `json:"elems"` // (holder, slot, record): active element segments / global initialisers
+	// NoElem: the module has NO element section at all (Elems may then only initialise globals): ref.func is valid
+	// for its functions because they are exported (imported ()->i32 functions are re-exported for that purpose)
+	NoElem bool `json:"noelem,omitempty"`
 }
 
 func (m *ModSpec) nImpRec() int { return len(m.ImpF) + len(m.ImpS) }
@@ -101,7 +104,16 @@ func Build(self int, mods []ModSpec) []byte {
 	for r := 0; r < m.nRec(); r++ {
 		decl = append(decl, c.U32(widx(r)))
 	}
-	w.Elems = append(w.Elems, c.Cat(c.B(3), c.B(0), c.Vec(decl...)))
+	if !m.NoElem {
+		w.Elems = append(w.Elems, c.Cat(c.B(3), c.B(0), c.Vec(decl...)))
+	} else {
+		if len(w.Elems) > 0 {
+			panic("noelem module with an active element segment")
+		}
+		for r := range m.ImpF {
+			w.Exports = append(w.Exports, c.Export(fmt.Sprintf("x%d", r), 0, widx(r)))
+		}
+	}
 	for i := 0; i < m.NExp; i++ {
 		w.Exports = append(w.Exports, c.Export(fmt.Sprintf("tab%d", nit+i), 1, uint32(nit+i)))
 	}
@@ -158,6 +170,16 @@ func Build(self int, mods []ModSpec) []byte {
 			}
 		}
 		if t < ntab {
+			// the same stores through the bulk instructions: table.fill (one slot), table.grow (one new slot), table.copy
+			for r := 0; r < m.nRec(); r++ {
+				if isRefable(r) {
+					add(fmt.Sprintf("fil%d_%d", t, r), tI, c.LocalGet(0), refFunc(widx(r)), c.I32Const(1), c.Cat(c.B(0xfc, 0x11), c.U32(uint32(t))))
+					add(fmt.Sprintf("grw%d_%d", t, r), tVoid, refFunc(widx(r)), c.I32Const(1), c.Cat(c.B(0xfc, 0x0f), c.U32(uint32(t))), c.B(0x1a))
+				}
+			}
+			for d := 0; d < ntab; d++ {
+				add(fmt.Sprintf("cpc%d_%d", t, d), tII, c.LocalGet(1), c.LocalGet(0), c.I32Const(1), c.Cat(c.B(0xfc, 0x0e), c.U32(uint32(d)), c.U32(uint32(t))))
+			}
 			add(fmt.Sprintf("clr%d", t), tI, c.LocalGet(0), refNull(), tableSet(uint32(t)))
 			add(fmt.Sprintf("st%d", t), tStore, c.LocalGet(0), c.LocalGet(1), tableSet(uint32(t)))
 		} else {
